@@ -21,17 +21,17 @@ Definition op_conformsb (c : clocks) (e : engine NumF) (o : eop) : bool * clocks
   let p := a_params a in
   match o with
   | ESubmit k [f] now debit _ =>
-      (key_okb k && conformsb (clk_get c k) (get_create e k now) (ECheckin (flight_of f) now (a_pc a) p debit), (k, now) :: c)
+      (key_okb k && conformsb (pMaxStack p) (clk_get c k) (get_create e k now) (ECheckin (flight_of f) now (a_pc a) p debit), (k, now) :: c)
   | ESubmit k _ now _ _ => (false, (k, now) :: c)            (* the bot checks in one flight at a time *)
   | RunEngine.EPropose k fs te now _ _ _ =>
       match plan_args e (map flight_of fs) te now with
       | inl (ts, te', d, tr) =>
-          (key_okb k && conformsb (clk_get c k) (get_create e k now) (EPlan ts te' d tr now (as_predictor (a_pred a))), (k, now) :: c)
+          (key_okb k && conformsb (pMaxStack p) (clk_get c k) (get_create e k now) (EPlan ts te' d tr now (as_predictor (a_pred a))), (k, now) :: c)
       | inr _ => (true, c)
       end
   | RunEngine.EUpdate now _ _ _ _ =>
       ((now mod SecondsInDay =? 0) &&
-       forallb (fun kt => conformsb (clk_get c (fst kt)) (snd kt) (HistoryP.EUpdate p (share_of e) now)) (e_table e),
+       forallb (fun kt => conformsb (pMaxStack p) (clk_get c (fst kt)) (snd kt) (HistoryP.EUpdate p (share_of e) now)) (e_table e),
        map (fun kt => (fst kt, now)) (e_table e) ++ c)
   | EEndTrip _ _ | EReopen _ _ => (false, c)                  (* the bot never closes or reopens a trip itself *)
   | _ => (true, c)
